@@ -1,5 +1,6 @@
 PROP = dict(
-    modules=["Shangrla.Props.C02", "Shangrla.Props.RiskLimitComparisonOutcome"],
+    modules=["Shangrla.Props.C02", "Shangrla.Props.C02Pairs", "Shangrla.Props.RiskLimitComparisonOutcome",
+             "Shangrla.Props.RiskLimitOutcome"],
     theorems=["Shangrla.C02.plurality_iff", "Shangrla.C02.plurality_iff_style", "Shangrla.C02.mean_style_nan",
               "Shangrla.C02.supermajority_iff", "Shangrla.C02.supermajority_iff_style", "Shangrla.C02.hasOneVote_eq",
               "Shangrla.C02.assort_range_plur", "Shangrla.C02.assort_range_super",
@@ -9,6 +10,10 @@ PROP = dict(
               "Shangrla.C02.superCands_perm",
               "Shangrla.C02.witness_F19", "Shangrla.C02.witness_super_noenforce",
               "Shangrla.C02.witness_super_outside",
+              # the loops of make_plurality_assertions (model Assorter.pluralityPairs, with the F30 repair): an assertion
+              # for EVERY (winner, loser) pair, each pair under its own name, refusal only for a genuine name clash
+              "Shangrla.C02.pluralityPairs_complete", "Shangrla.C02.pluralityPairs_sound",
+              "Shangrla.C02.pluralityPairs_ok_of_injective",
               # C02 composed with C03, C06, C09 and C01: a wrong reported outcome of a plurality / super-majority contest
               # on the manual records => the comparison / ONEAudit audit (literal overstatement model: pools, phantoms,
               # style filter) is ever reported complete with probability at most the risk limit; mvrOf is the bridge
@@ -25,7 +30,28 @@ PROP = dict(
               "Shangrla.RiskLimit.supermajority_comparison_risk_limit_found",
               "Shangrla.RiskLimit.plurality_comparison_risk_limit_zip",
               "Shangrla.RiskLimit.supermajority_comparison_risk_limit_zip",
-              "Shangrla.RiskLimit.example_comparison_outcome_exact"],
+              "Shangrla.RiskLimit.example_comparison_outcome_exact",
+              # C02.plurality_iff / supermajority_iff read at the audit level (RiskLimitOutcome.lean): "the reported outcome
+              # is wrong" (some reported loser has at least as many marks as some reported winner; winner's valid votes
+              # <= f * valid votes) + an assertion for EVERY (winner, loser) pair => contest-level risk limit, polling and
+              # comparison / ONEAudit; several contests: any of them wrong => at most the largest risk limit
+              "Shangrla.RiskLimit.pluralityOutcomeWrong_iff_pair", "Shangrla.RiskLimit.pluralityOutcomeWrong_iff_means",
+              "Shangrla.RiskLimit.supermajorityOutcomeWrong_iff_mean",
+              "Shangrla.RiskLimit.plurality_outcome_polling_risk_limit",
+              "Shangrla.RiskLimit.supermajority_outcome_polling_risk_limit",
+              "Shangrla.RiskLimit.marks_foundOf", "Shangrla.RiskLimit.valid_foundOf", "Shangrla.RiskLimit.wvalid_foundOf",
+              "Shangrla.RiskLimit.pluralityUnconfirmed_of_wrong", "Shangrla.RiskLimit.supermajorityUnconfirmed_of_wrong",
+              "Shangrla.RiskLimit.plurality_outcome_comparison_risk_limit",
+              "Shangrla.RiskLimit.plurality_outcome_comparison_risk_limit_found",
+              "Shangrla.RiskLimit.supermajority_outcome_comparison_risk_limit",
+              "Shangrla.RiskLimit.supermajority_outcome_comparison_risk_limit_found",
+              "Shangrla.RiskLimit.wrong_outcome_polling_risk_limit", "Shangrla.RiskLimit.wrong_outcome_comparison_risk_limit",
+              "Shangrla.RiskLimit.audit_polling_risk_limit", "Shangrla.RiskLimit.audit_comparison_risk_limit",
+              # contests audited by different methods (polling / comparison, own style flag) in one audit
+              "Shangrla.RiskLimit.polling_cards_risk_limit", "Shangrla.RiskLimit.wrong_outcome_risk_limit",
+              "Shangrla.RiskLimit.audit_outcome_risk_limit",
+              "Shangrla.RiskLimit.pair_name_clash",
+              "Shangrla.RiskLimit.example_outcome_polling_exact", "Shangrla.RiskLimit.example_outcome_comparison_exact"],
     groups={"assorter": (700, 12000)},
     design_ref="DESIGN.md section 5, C02",
     assumptions=[
@@ -45,5 +71,13 @@ PROP = dict(
         "FOUND ballots of the cards under audit (CVR passes the style filter; card found; under style the manual record "
         "lists the contest): marks(w) <= marks(l) + #records scored 0, resp. wvalid <= f * (valid + #records scored 0) "
         "-- exactly equivalent to 'the assertion is false on the manual records' (the _null_iff theorems)",
+        "contest-level theorems (RiskLimitOutcome.lean): the contest's assertion list contains, for EVERY pair (w, l) of "
+        "a reported winner and a reported loser, an assertion whose data are the plurality assorter 'w v l' (resp. the one "
+        "super-majority assertion), set up as make_plurality_assertions / make_supermajority_assertion set it up "
+        "(PollingAssertion / ComparisonAssertion: N = cards, t = 1/2, u = assorter bound resp. the bound set_margin_from_cvrs "
+        "installs, a shipped test in its documented range).  The constructor loop itself is not modelled (an assertion is "
+        "known to the Status model by its name only), so this is a hypothesis; it FAILS on the real code when two pairs get "
+        "the same dict key winr + ' v ' + losr (candidates 'a', 'a v b', 'b v c', 'c': 4 pairs, 3 assertions; theorem "
+        "pair_name_clash, checked against make_all_assertions).  W and L need not be disjoint or non-empty",
     ],
 )
